@@ -25,7 +25,10 @@ def _worker(conn, func):
             return
         idx, unit = msg
         try:
+            t0 = time.time()
             res = func(unit)
+            if isinstance(res, dict):
+                res['_wall'] = time.time() - t0
             conn.send((idx, 'ok', res))
         except BaseException as e:  # noqa: BLE001
             conn.send((idx, 'exc', '%s: %s\n%s' % (type(e).__name__, e, traceback.format_exc()[-4000:])))
